@@ -171,7 +171,14 @@ pub fn render(root: &Node, st: &Style) -> String {
             s.push('\n');
         }
     }
+    if st.cmt {
+        // comments are allowed before and after the root element as well
+        s.push_str("<!-- before the root -->");
+    }
     render_node(root, st, 0, true, "", &mut s);
+    if st.cmt {
+        s.push_str("<!-- after the root -->");
+    }
     if st.ws {
         s.push('\n');
     }
